@@ -17,6 +17,9 @@ fn be64(b: &[u8], o: usize) -> u64 {
 #[kani::unwind(9)]
 fn c14_keepalive_frame() {
     let mut c = any_conn(kani::any(), SYM_FULL);
+    c.rtt.waiting_for_keepalive_response = kani::any();
+    c.rtt.last_rtt_measurement_ms = any_time();
+    c.rtt.last_keepalive_sent_ms = any_time();
     let now = any_now();
     let (window, inflight, naks) = (c.window, c.in_flight_packets, c.vh_congestion().nak_count);
     let bps = c.vh_bitrate().current_bitrate_bps;
@@ -58,7 +61,9 @@ fn c14_keepalive_frame() {
 
 #[kani::proof]
 fn c14_need_predicates() {
-    let c = any_conn(1, SYM_INT);
+    let mut c = any_conn(1, SYM_INT);
+    c.rtt.waiting_for_keepalive_response = kani::any();
+    c.rtt.last_rtt_measurement_ms = any_time();
     let now = any_now();
     let due = match *c.vh_last_keepalive_sent() {
         None => true,
